@@ -1,5 +1,5 @@
 """C06 -- loop and if-branches only where the language allows."""
-from rules import hirq, mirq, typestate
+from rules import hirq, mirq, typestate, flagstate
 from rules.core import walk, norm_path, AnchorMissing
 
 LEVEL = "other"
@@ -23,185 +23,14 @@ FB = "<alpha::common::FunctionBody as alpha::analyzer::syntax::Analyzable>::anal
 FLAGS = ("is_naked_then_branch", "is_naked_else_branch", "is_in_block")
 
 
-def flag_write(stmt):
-    fp = mirq.field_proj(stmt["d"])
-    if fp and fp[-1][0] in FLAGS and norm_path(fp[-1][1]).endswith("syntax::Analyzer"):
-        r = stmt["r"]
-        if r.get("k") == "Use":
-            c = mirq.op_const(r["a"])
-            if c in (0, 1):
-                return fp[-1][0], c
-        return fp[-1][0], None
-    return None
-
-
-TYPES = [None]
-
-
-def module_fns(F):
-    TYPES[0] = F.lib.types
-    return {p: b for p, b in F.lib.bodies.items() if F.rel(b["file"]) == "src/alpha/analyzer/syntax.rs" and "mir" in b}
-
-
-def stmt_transfer(stmt, st):
-    w = flag_write(stmt)
-    if not w:
-        return st
-    idx = FLAGS.index(w[0])
-    out = set()
-    for s in st:
-        vals = (0, 1) if w[1] is None else (w[1],)
-        for v in vals:
-            t = list(s)
-            t[idx] = v
-            out.add(tuple(t))
-    return out
-
-
-def apply_summary(summ, st):
-    out = set()
-    for s in st:
-        for u in summ:
-            out.add(tuple(s[i] if u[i] == "E" else u[i] for i in range(len(FLAGS))))
-    return out
-
-
-def closures_created(cfg):
-    created = {}
-    for i in sorted(cfg.reach):
-        for s in cfg.blocks[i]["s"]:
-            r = s["r"]
-            if r.get("k") == "Agg" and "closure" in r:
-                created[norm_path(r["closure"])] = i
-    return created
-
-
-def live_closures(cfg, created, t):
-    """Closures created on some path before the call terminator t."""
-    blk = None
-    for i in cfg.reach:
-        if cfg.term(i) is t:
-            blk = i
-    out = []
-    for cl, cb in created.items():
-        if blk is not None and (blk == cb or blk in cfg.reachable_from(cfg.succ[cb])):
-            out.append(cl)
-    return out
-
-
-def takes_closure(t, cfg):
-    """Does the call receive a closure (or an adaptor built from one) as an argument?"""
-    T = cfg.body.get("_types")
-    for a in t.get("args", []):
-        l = mirq.op_local(a)
-        if l is not None:
-            ty = cfg.mir["locals"][l]["ty"]
-            if T is not None and "{closure" in T[ty]:
-                return True
-    return False
-
-
-def make_transfer(fns, summary, created, cfg=None):
-    def transfer(t, st):
-        c = mirq.call_target(t)
-        if c in fns:
-            return apply_summary(summary.get(c, set()), st)
-        if c is not None and not c.startswith(("alpha::", "<alpha::")) and created and cfg is not None:
-            live = [cl for cl in live_closures(cfg, created, t)]
-            if not live or not takes_closure(t, cfg):
-                return st
-            # std code may run the closures it was handed zero or more times
-            out = set(st)
-            changed = True
-            while changed:
-                changed = False
-                for cl in live:
-                    new = apply_summary(summary.get(cl, set()), out)
-                    if not new <= out:
-                        out |= new
-                        changed = True
-            return out
-        return st
-    return transfer
-
-
-def exit_states(cfg, inst):
-    out = set()
-    for b in cfg.exits():
-        st = set(inst.get(b, set()))
-        for stmt in cfg.blocks[b]["s"]:
-            st = stmt_transfer(stmt, st)
-        out |= st
-    return out
-
-
-def summaries(fns):
-    cfgs = {p: mirq.CFG(b) for p, b in fns.items()}
-    for p, b in fns.items():
-        b["_types"] = TYPES[0]
-    created = {p: {c: blk for c, blk in closures_created(cfg).items() if c in fns} for p, cfg in cfgs.items()}
-    summary = {p: set() for p in fns}
-    sym = {tuple("E" for _ in FLAGS)}
-    for _ in range(40):
-        changed = False
-        for p, cfg in cfgs.items():
-            inst = typestate.run(cfg, sym, make_transfer(fns, summary, created[p], cfg), None, None, stmt_transfer=stmt_transfer)
-            ex = exit_states(cfg, inst)
-            if ex != summary[p]:
-                summary[p] = ex
-                changed = True
-        if not changed:
-            break
-    return cfgs, created, summary
-
-
-def reachable_calls(fns, cfgs, created, summary, roots):
-    """Concrete pass: entry states per function (context-insensitive), and (fn, call, pre-states) records."""
-    entries = {p: set() for p in fns}
-    for p, st in roots.items():
-        entries[p] |= st
-    records = {}
-    for _ in range(40):
-        changed = False
-        for p, cfg in cfgs.items():
-            if not entries[p]:
-                continue
-            recs = []
-
-            def observe(u, t, st, recs=recs):
-                recs.append((u, t, set(st)))
-            typestate.run(cfg, entries[p], make_transfer(fns, summary, created[p], cfg), None, observe, stmt_transfer=stmt_transfer)
-            records[p] = recs
-            for u, t, st in recs:
-                c = mirq.call_target(t)
-                if c in fns and not st <= entries[c]:
-                    entries[c] |= st
-                    changed = True
-                if c is not None and not c.startswith(("alpha::", "<alpha::")) and takes_closure(t, cfg):
-                    for cl in live_closures(cfg, created[p], t):
-                        pre = set(st)
-                        # repeated invocation: closed under the closure's own summary
-                        grow = True
-                        while grow:
-                            new = apply_summary(summary.get(cl, set()), pre)
-                            grow = not new <= pre
-                            pre |= new
-                        if not pre <= entries[cl]:
-                            entries[cl] |= pre
-                            changed = True
-        if not changed:
-            break
-    return entries, records
-
-
 def r2_flags(run, F):
-    fns = module_fns(F)
+    FM = flagstate.FlagModule(F, "src/alpha/analyzer/syntax.rs", FLAGS, "syntax::Analyzer")
+    fns = FM.fns
     run.require(ST in fns and BL in fns and FB in fns, "syntax analyzer impls not found")
-    cfgs, created, summary = summaries(fns)
-    # pipeline entry: syntax::analyze creates Analyzer::default() = all flags false
+    summary = FM.summary
     roots = {"<alpha::common::Declaration as alpha::analyzer::syntax::Analyzable>::analyze": {(0, 0, 0)}}
     run.require(list(roots)[0] in fns, "Declaration::analyze of the syntax analyzer not found")
-    entries, records = reachable_calls(fns, cfgs, created, summary, roots)
+    entries, records = FM.reachable_calls(roots)
     run.info("R2: exit summaries (E = unchanged): %s" % {p.split(" as ")[0][-30:] + ("{cl}" if "{closure" in p else ""): sorted(map(str, v)) for p, v in summary.items() if ("Statement" in p or "Block" in p)})
     n = 0
     for fn, recs in records.items():
